@@ -159,6 +159,13 @@ pub fn generate(prop: &str, thorough: bool, rng: &mut Rng) -> Case {
                     clients.push(gen_ops(rng, n, keys, &mix, &mut vc));
                 }
             }
+            // single-client runs: now and then a fetch is overtaken by an explicit insert of its key (closed round)
+            if clients.len() == 1 && cfg.get("filter_mod") == Some(&0) && rng.chance(1, 3) {
+                for _ in 0..1 + rng.below(2) {
+                    let at = rng.below(clients[0].len() + 1);
+                    clients[0].insert(at, Op::FetchThenInsert { k: rng.below(keys as usize) as u64, ver: vc.next(), ins_ver: vc.next(), w: 1 + rng.below(2) as u32, yields: 1 + rng.below(2) as u8 });
+                }
+            }
             if abandon {
                 for ops in clients.iter_mut() {
                     for _ in 0..1 + rng.below(2) {
